@@ -119,15 +119,15 @@ func init() {
 	mc.Register(&mc.Check{
 		ID:    "C19",
 		Level: "exploration",
-		Rule: "engine P x short S prefix: (A) every prior selector state CSEL in 0..63 x NSEL in {0,9,10,63} (thorough: 0..63), reached by SetCSel/SetNSel, by an incrementing write from the predecessor (incl. the wrap 63->0) and by two incrementing writes of zero values, x every stop-list length 0..300 x 4 colour models x destinations {Renderer, Encoder}; " +
-			"(B) 300 geometries (linear, circular, two elliptical families over magnitudes 2^-6..2^10, 6 directions, 3 origins; 12 general matrices) x 4 spreads x {2,3,58} (thorough 12 counts) stops x both destinations. Oracle: documented errors (and no mutating call) exactly for >58 stops or CSEL inside the stop range judged on the true selector; otherwise the first write is the gradient value naming CBASE/NBASE/NSTOPS/shape/spread, " +
+		Rule: "engine P x short S prefix: (A) every prior selector state CSEL in 0..63 x NSEL in {0,1,5,6,9,10,31,32,57,58,62,63} (thorough: 0..63), reached by SetCSel/SetNSel, by an incrementing write from the predecessor (incl. the wrap 63->0) and by two incrementing writes of zero values, x every stop-list length 0..300 x 4 colour models x destinations {Renderer, Encoder}; " +
+			"(B) 300 geometries (linear, circular, two elliptical families over magnitudes 2^-6..2^10, 6 directions, 3 origins; 12 general matrices) x 4 spreads x {2,3,4,17,33,58} (thorough 12 counts) stops x both destinations, from selector states (CSEL,NSEL) in {5,62,0,33} x {63,3,0,40} by geometry. Oracle: documented errors (and no mutating call) exactly for >58 stops or CSEL inside the stop range judged on the true selector; otherwise the first write is the gradient value naming CBASE/NBASE/NSTOPS/shape/spread, " +
 			"replaying the writes on the specification VM puts colours (RGBAModel conversion), offsets and the six matrix entries where that value says, CSEL/NSEL are restored, the same stops slice passed again (after a Reset; after its contents changed) is stored again, and the paint reaching the rasteriser has the given stops/spread/shape, paints the colours they interpolate to on a 16x8 pixel grid, and has a transform that realises the geometry (0 at (x1,y1), 1 at (x2,y2), constant along perpendiculars; 0 at the centre and distance 1 at the radius/axis end points; the given matrix). " +
 			"distinct = (error class, kind, dest, nstops class); non-trivial = helper call that writes registers",
 		Assumptions: []string{"geometric tolerance 2^-18 relative to the sum of the magnitudes of the terms of the affine form", "Encoder route: register values compared under the C01 number tolerance after decoding"},
 		Units:       func(tier string) int { return 64 + len(c19Geoms()) },
 		Run: func(w *mc.W, u int) {
 			if u < 64 {
-				nsels := []int{0, 9, 10, 63}
+				nsels := []int{0, 1, 5, 6, 9, 10, 31, 32, 57, 58, 62, 63}
 				if w.Thorough {
 					nsels = nsels[:0]
 					for i := 0; i < 64; i++ {
@@ -161,13 +161,13 @@ func init() {
 			}
 			g := c19Geoms()[u-64]
 			for spread := 0; spread < 4; spread++ {
-				ns := []int{2, 3, 58}
+				ns := []int{2, 3, 4, 17, 33, 58}
 				if w.Thorough {
 					ns = []int{2, 3, 4, 8, 9, 10, 16, 17, 32, 33, 57, 58}
 				}
 				for _, n := range ns {
 					for dest := 0; dest < 2; dest++ {
-						cs := c19Case{Kind: g.kind, Spread: spread, NStops: n, Model: (spread + n) % 4, CSel: 5, NSel: 63, ByIncr: spread%2 == 1, Dest: dest}
+						cs := c19Case{Kind: g.kind, Spread: spread, NStops: n, Model: (spread + n) % 4, CSel: []int{5, 62, 0, 33}[u%4], NSel: []int{63, 3, 0, 40}[u/4%4], ByIncr: spread%2 == 1, Dest: dest}
 						for i := range g.p {
 							cs.G[i] = f32b(g.p[i])
 						}
